@@ -68,8 +68,19 @@ def make_data(p):
 def run_fit(p):
     from xrfm.rfm_src import RFM
     X, y, Xv, yv = make_data(p)
+    maximize = bool(p.get('maximize'))
     model = RFM(kernel=c04.make_kernel(p['kernel']), iters=p['iters'], device='cpu', verbose=False, diag=p['diag'],
-                bandwidth_mode=p.get('bandwidth_mode', 'constant'), tuning_metric='mse')
+                bandwidth_mode=p.get('bandwidth_mode', 'constant'), tuning_metric='accuracy' if maximize else 'mse')
+    if maximize:
+        # a maximised metric (the other branch of update_best_params): validation scores scripted to peak at a middle iterate
+        peak = max(1, p['iters'] // 2)
+        calls = {'i': 0}
+
+        def scripted(*a, **k):
+            i = calls['i']
+            calls['i'] += 1
+            return {'accuracy': 1.0 - 0.1 * abs(i - peak)}
+        model._compute_validation_metrics = scripted
     rec = AgopRec(model)
     Ms = model.fit((X, y), (Xv, yv), iters=p['iters'], reg=p['reg'], verbose=False, center_grads=p['center'],
                    M_batch_size=p['batch'], return_Ms=True, get_agop_best_model=True,
@@ -351,7 +362,11 @@ def gen_cases(r, n_cases):
                       'iters': r.randint(1, 4), 'diag': r.random() < 0.4, 'center': center, 'batch': batch,
                       'reg': r.choice([1e-3, 1e-2, 1e-1]), 'early': r.random() < 0.3, 'return_best': r.random() < 0.7,
                       'bandwidth_mode': 'adaptive' if adaptive else 'constant',
-                      'vary_batch': fam != 'center-grads-single-batch', 'seed': r.randint(0, 2 ** 31 - 1)})
+                      'vary_batch': fam != 'center-grads-single-batch', 'seed': r.randint(0, 2 ** 31 - 1),
+                      'maximize': fam == 'leaf-fits' and t % 3 == 1})
+        if cases[-1]['maximize']:
+            cases[-1]['return_best'] = True
+            cases[-1]['iters'] = max(2, cases[-1]['iters'])
     return cases
 
 
